@@ -13,7 +13,7 @@
  Agreement with a byte-string model for search/replace/split/trim and the length/NUL invariant of every mutator are not decided."""
 import os
 import bytesets
-import ir, q, alias
+import ir, q, alias, cfg as cfgm
 from ir import strip, strip_lv, const_val, T, pe, walk_expr, fn_exprs, AnalysisBroken
 from core import fwhere
 
@@ -39,6 +39,7 @@ def run(ctx):
     check_valist(ctx, prog)
     check_search_model(ctx, prog)
     ctx.floor("C03.inplace", check_inplace_model(ctx, prog), 1)
+    ctx.floor('C03.assignlen', check_assign_len(ctx, prog), 1)
     import nullret
     nullret.check(ctx, prog, 'C03', ('String.cpp',))
     import litread
@@ -84,6 +85,45 @@ def check_alias(ctx, prog):
                 ctx.check(c['fn'] == 'memmove' or not rebased and False, 'R-ALIAS', f['pq'], f['n'] + ':overlapping copy', fwhere(f, c['l']),
                           'copy from a source that may lie inside the destination buffer uses memmove',
                           'assign() copies from an argument that may be a piece of the same buffer into the start of that buffer with memcpy (overlap is undefined); memmove is required')
+
+
+def check_assign_len(ctx, prog):
+    """C03.assignlen: assign(p, n) makes the string the n bytes at p - whatever p is.  On every path to a return the new length has
+    been recorded (a store to `_len`, or a mutating member of the string called, which records it): a shortcut that returns
+    because the *pointer* is the string's own start (`if (b == s0) return;`) forgets that n may be smaller than the length -
+    `s.assign(s.data(), k)` must truncate."""
+    n = 0
+    # members that record a length: a store to _len in their body, or (transitively) a call of such a member on this
+    def stores_len(e):
+        return e.get('k') == 'bin' and e.get('op') in ('=', '+=', '-=') and strip_lv(e['x']).get('k') == 'mem' and strip_lv(e['x']).get('f') == '_len'
+    members = [g for g in prog.functions if g.get('clsp') == 'asl::String' and g.get('body') and not g.get('implicit')]
+    setters = set(g['pq'] + (g.get('sig') or '') for g in members if any(stores_len(e) for e in fn_exprs(g)))
+    for _ in range(3):
+        for g in members:
+            if g['pq'] + (g.get('sig') or '') not in setters and any(e.get('k') == 'call' and e.get('clsp') == 'asl::String' and alias.is_this_obj(e) and (e.get('pq') or '') + (e.get('sig') or '') in setters for e in fn_exprs(g)):
+                setters.add(g['pq'] + (g.get('sig') or ''))
+    for f in prog.fn('asl::String::assign'):
+        if not f.get('body') or len(f['params']) != 2 or not T(f, f['params'][0]['t']).get('ptr'):
+            continue
+        n += 1
+        ctx.analysed(f)
+        cfg = cfgm.CFG(f)
+
+        def step(nd, st):
+            if st or nd.kind != 'ev' or nd.e is None:
+                return st
+            e = nd.e
+            if e.get('k') == 'bin' and e.get('op') in ('=', '+=', '-=') and strip_lv(e['x']).get('k') == 'mem' and strip_lv(e['x']).get('f') == '_len':
+                return True
+            if e.get('k') == 'call' and e.get('clsp') == 'asl::String' and alias.is_this_obj(e) and (e.get('pq') or '') + (e.get('sig') or '') in setters:
+                return True
+            return st
+        reached, parent = cfgm.dataflow(cfg, False, step)
+        exits = reached.get(cfg.exit.id, set())
+        role = 'assign(const char *,int):every exit has recorded the new length'
+        ctx.check(False not in exits, 'C03.assignlen', f['pq'], role, fwhere(f), 'a store to _len (or a mutating member call) on every path to a return',
+                  'assign(p, n) can return without recording the length n (path %s): `s.assign(s.data(), k)` with k < length() leaves the string untruncated - contents and length() disagree with the byte-string model' % cfgm.witness(cfg, parent, cfg.exit.id, False))
+    return n
 
 
 # ------------------------------------------------------------------ C03.width
